@@ -64,6 +64,16 @@ def flag(ctx, prog, ver):
                 ctx.violation(rule, body.id, "await_pingresp = false", "the ping-pending flag is cleared outside handle_incoming_pingresp / clean: a silent broker could go unnoticed", site=body.loc(st.get("sp")))
         else:
             ctx.violation(rule, body.id, "await_pingresp written", "await_pingresp is assigned a non-constant value", site=body.loc(st.get("sp")))
+    # a ping that was outstanding when the connection failed is not owed by the NEXT connection: clean() clears the flag
+    # on every path, or the first keep-alive tick after a reconnect reports AwaitPingResp without having pinged
+    cl = state_fn(prog, ver, "clean")
+    clears = [bi for b2, bi, st in field_writes(prog, "await_pingresp") if b2.id == cl.id and st["rv"]["k"] == "use" and (op_const(st["rv"]["a"]) or {}).get("v") == 0]
+    if clears and must_pass(cl, [0], return_blocks(cl), via_blocks=set(clears), include_from=True):
+        ctx.ok(rule, cl.id, "clean() clears the ping-pending flag on every path")
+    else:
+        ctx.violation(rule, cl.id, "stale ping survives clean()",
+                      "MqttState::clean() no longer clears await_pingresp: a ping left unanswered by the failed connection makes the first keep-alive tick of the next connection fail with AwaitPingResp although no PINGREQ was sent on it — a false alarm on every reconnect",
+                      site=cl.fn_loc())
     ctx.floor(rule, "writes of await_pingresp (%s)" % ver, n, 3)
     pr = state_fn(prog, ver, "handle_incoming_pingresp")
     if any(place_fields(st["lhs"])[-1:] == ["await_pingresp"] for b in pr.blocks for st in b["s"] if "lhs" in st):
